@@ -9,6 +9,7 @@
 package c12
 
 import (
+	"os"
 	"encoding/binary"
 	"fmt"
 	"net"
@@ -575,7 +576,10 @@ type stagedCase struct {
 	Mut  string `json:"mut"`
 }
 
-var stagedMuts = []string{"badip", "trunc0", "trunc1", "trunc2", "trunc3", "no-records", "refused"}
+var stagedMuts = []string{"badip", "trunc0", "trunc1", "trunc2", "trunc3", "no-records", "refused", "error-nul", "error-empty", "error-unknown-text", "error-nul-first"}
+
+// errorPayloads: the body of an error answer ('e' + Base32 of the error text) with unusual texts
+var errorPayloads = map[string]string{"error-nul": "x\x00y", "error-empty": "", "error-unknown-text": "NOSUCHERROR", "error-nul-first": "\x00BADUSER"}
 
 func stagedCases(thorough bool) []stagedCase {
 	n := 40
@@ -626,6 +630,20 @@ func evalClientStaged(t *testing.T, r *mc.Run, c stagedCase) {
 					case *dns.TXT:
 						if len(v.Txt) > 0 && len(v.Txt[0]) > 2+k {
 							v.Txt = []string{v.Txt[0][:2+k]}
+						}
+					}
+				}
+			case strings.HasPrefix(c.Mut, "error-"):
+				body := append([]byte{'e'}, enc.Base32Encoding.Encode([]byte(errorPayloads[c.Mut]))...)
+				for _, rr := range a.Answer {
+					switch v := rr.(type) {
+					case *dns.NULL:
+						if len(v.Data) >= 2 {
+							v.Data = string(append([]byte(v.Data[:2]), body...))
+						}
+					case *dns.TXT:
+						if len(v.Txt) > 0 && len(v.Txt[0]) >= 2 {
+							v.Txt = []string{v.Txt[0][:2] + string(body)}
 						}
 					}
 				}
@@ -681,10 +699,19 @@ func evalClientStaged(t *testing.T, r *mc.Run, c stagedCase) {
 		if !finished && outcome != "runaway" {
 			outcome = "does-not-end"
 		}
-		cl.Close()
+		if outcome == "ended" && hsPanic == "" {
+			cl.Close()
+		} else {
+			// nothing closes a connection object whose handshake failed (upstream.Dns.Connect drops
+			// it): only let go of what the harness holds
+			func() { defer func() { recover() }(); cl.Communicator.Close() }()
+		}
 	})
 	if hsPanic != "" && res.Panic == "" {
 		res.Panic = hsPanic
+	}
+	if res.Panic != "" && os.Getenv("VERIF_DBG") != "" {
+		fmt.Fprintln(os.Stderr, res.Panic)
 	}
 	switch {
 	case res.Panic != "":
